@@ -93,7 +93,7 @@ class Tektronix_AFG31000(QMI_Instrument):
         try:
             # Clear error queue to avoid reporting stale errors.
             self._scpi_transport.write("*CLS")
-        except OSError:
+        except Exception:
             self._transport.close()
             raise
         super().open()
